@@ -188,3 +188,39 @@ def run_text_suite(ctx, name, programs):
     ctx.add_suite(name, len(programs), len(traces), time.time() - t0, {"outcomes": outcomes, "violating_items": nviol})
     if programs:
         ctx.sample({"suite": name, "lines": programs[len(programs) // 2], "outcome": traces[len(programs) // 2]["outcome"]})
+
+
+def run_pass_traces(ctx, name, cases):
+    """Assemble with the pass-boundary hooks on and validate the event sequence of every assembly against AsmPasses (Tr_Passes)."""
+    t0 = time.time()
+    triples = [(k, c.prog, c.lines) for k, c in enumerate(cases)]
+    traces, extras = asmrun.run(triples, hooks=True)
+    cases = cases[:len(traces)]
+    recs = []
+    for t, c in zip(traces, cases):
+        evs = []
+        for e in extras[t["id"]]["hooks"]:
+            if e["ev"] not in ("Collected", "Translated", "SizeDecide", "Sweep", "Laid", "Fixed", "Backpatched"):
+                continue
+            e = dict(e)
+            if isinstance(e.get("fixed"), list):
+                e["fixedv"] = e.pop("fixed")
+            evs.append(e)
+        facts = {"n": len(c.prog), "mn": [s["mn"] for s in c.prog], "lab": [s["label"] for s in c.prog],
+                 "orgv": [s["expr"]["l"]["n"] if s["mn"] == "ORG" and s["expr"]["l"]["k"] == "num" else -1 for s in c.prog]}
+        recs.append({"id": t["id"], "p": facts, "events": evs, "accepted": t["outcome"] == "ok"})
+    verd, st = tlc.bulk("Tr_Passes", recs, nproc=NPROC_JVM)
+    nv = nohook = 0
+    for r, c in zip(recs, cases):
+        v = verd[r["id"]]
+        if r["accepted"] and not r["events"]:
+            nohook += 1
+            continue
+        ctx.add_class("passes|%d|%s" % (v["stage"], "ok" if r["accepted"] else "rejected"))
+        if not v["ok"]:
+            item = {"clause": "pass-" + v["why"], "class": {"form": "passes", "stage": v["stage"]}, "symptom": {"at": v["at"]}}
+            if ctx.report(item, {"kind": "asm", "lines": c.lines, "events": r["events"][:12], "verdict": v}) == "violation":
+                nv += 1
+    ctx.add_suite(name, len(recs), len(recs), time.time() - t0, {"violating_items": nv, "accepted_traces_without_hook_events": nohook})
+    if nohook:
+        ctx.notes.append("%s: %d accepted assemblies carried no pass events (hooks missing?)" % (name, nohook))
